@@ -507,7 +507,7 @@ class Monitor:
             raise self._viol(f"eigenbasis {j} refreshed at step {t} is not the orthogonal-iteration update of the previous basis (any k<= {K})", b, t, kind="basis_not_qr_update")
         self.c["basis_qr_matched"] += 1
         self.c["basis_qr_nonvacuous"] += nv
-        verdict, J, M = matref.stop_rule_check(Q, L, Q0, K, self.solver["tolerance"], u, torch.Generator().manual_seed(777 + t), work_dtype=Q_old_raw.dtype)
+        verdict, J, M = matref.stop_rule_check(Q, L, Q0, K, self.solver["tolerance"], u, torch.Generator().manual_seed(777 + t), work_dtype=getattr(torch, self.fdtype_name))
         self.c["basis_stop_rule_" + verdict] = self.c.get("basis_stop_rule_" + verdict, 0) + 1
         if verdict == "violated":
             raise self._viol(f"eigenbasis {j} refreshed at step {t} matches the orthogonal iteration after {M} step(s), but the documented stopping rule (relative change <= {self.solver['tolerance']}, at most {K} iterations) stops after {J}", b, t, kind="basis_stop_rule")
